@@ -17,6 +17,7 @@ mod checks_mixed;
 mod marketsession;
 mod envlib;
 mod envsession;
+mod extra;
 mod gen;
 mod model;
 mod ops;
@@ -47,6 +48,17 @@ fn main() {
         .and_then(|s| s.parse().ok())
         .or_else(|| std::env::var("VERIF_SEED").ok().and_then(|s| s.parse().ok()))
         .unwrap_or(1);
+    if cmd == "miri-slice" {
+        let seed: u64 = args.get(2).and_then(|s| s.parse().ok()).unwrap_or(1);
+        let h: usize = args.get(3).and_then(|s| s.parse().ok()).unwrap_or(2);
+        let e: usize = args.get(4).and_then(|s| s.parse().ok()).unwrap_or(1);
+        std::process::exit(extra::miri_slice(seed, h, e));
+    }
+    if cmd == "py-scripts" {
+        let seed: u64 = args.get(2).and_then(|s| s.parse().ok()).unwrap_or(1);
+        let n: usize = args.get(3).and_then(|s| s.parse().ok()).unwrap_or(8);
+        std::process::exit(pycheck::write_scripts(seed, n, &args[4]));
+    }
     if cmd == "c09-child" {
         std::process::exit(c09::child(&args[2], args[3] == "1", args[4].parse().unwrap_or(0)));
     }
